@@ -29,6 +29,11 @@ real callbacks suspend in between), so that sequential execution — `for it in
 reversed(self._exits): await it.__aexit__(…)`, `for receiver in self: await receiver(…)` —
 is observable and distinguishable from a concurrent one.
 
+`Fail.xcancel` on a start-up callback (context start-up code or `on_startup` handler): the
+task awaiting `runner.setup()` is cancelled while that callback is suspended — the callback
+logs its begin only, `CancelledError` propagates like any exception of the callback
+(`await ctx.__aenter__()` is awaited directly, nothing is shielded).
+
 Every user callback is an oracle `Fail` (`ok` | raises an `Exception` | raises
 `CancelledError`).  Connection handling during `cleanup` is part 2 (`C20Drain.lean`).
 -/
@@ -37,6 +42,7 @@ namespace Aio.C20
 /-- what a user callback does -/
 inductive Fail where
   | ok | exc | cancel
+  | xcancel   -- the task running `runner.setup()` is cancelled from outside while this callback is suspended
 deriving DecidableEq, Repr
 
 /-- one cleanup context: outcome of its start-up code and of its cleanup code -/
@@ -132,7 +138,11 @@ def rootChain (tbl : List AppDef) (s : Sig) : List Step := chain tbl s (tbl.leng
 structure EnterOut where
   ev : List Ev
   entered : List Nat
-  err : Option Origin
+  err : Option Err
+
+/-- the exception that leaves a failing callback: its own, or the `CancelledError` of the
+cancelled task -/
+def failErr (f : Fail) (o : Origin) : Err := if f = .xcancel then .cancelled else .user o
 
 /-- `CleanupContext._on_startup`, contexts numbered from `i` -/
 def enterAll (a : Nat) : Nat → List Ctx → EnterOut
@@ -141,7 +151,7 @@ def enterAll (a : Nat) : Nat → List Ctx → EnterOut
     if c.enter = .ok then
       let r := enterAll a (i + 1) cs
       ⟨.enter a i :: .entered a i :: r.ev, i :: r.entered, r.err⟩
-    else ⟨[.enter a i], [], some (.enter a i)⟩
+    else ⟨[.enter a i], [], some (failErr c.enter (.enter a i))⟩
 
 def exitFail (cs : List Ctx) (i : Nat) : Fail :=
   match cs[i]? with
@@ -172,13 +182,20 @@ structure Out where
   X : Exits
   err : Option Err
 
+/-- what a signal handler logs: its begin and — unless the task is cancelled from outside while it
+is suspended — its end -/
+def handlerEvs (s : Sig) (id : Nat) (f : Fail) : List Ev :=
+  if f = .xcancel then [.sig s id] else [.sig s id, .sigEnd s id]
+
 def runStep (tbl : List AppDef) (s : Sig) (X : Exits) : Step → Out
-  | .h id f => ⟨[.sig s id, .sigEnd s id], X, if f = .ok then none else some (.user (.sig s id))⟩
+  | .h id f =>
+    ⟨handlerEvs s id f, X,
+     if f = .ok then none else some (failErr f (.sig s id))⟩
   | .grp a =>
     match s with
     | .startup =>
       let r := enterAll a 0 (ctxsOf tbl a)
-      ⟨r.ev, X.set a (X a ++ r.entered), r.err.map Err.user⟩
+      ⟨r.ev, X.set a (X a ++ r.entered), r.err⟩
     | .cleanup =>
       let r := groupCleanup a (ctxsOf tbl a) (X a)
       ⟨r.1, X, r.2⟩
